@@ -435,7 +435,8 @@ def v_save_checkpoint(p):
 def build(p):
   D = 'native/C09.py'
   p.native('save_state', D, 'crash')
-  p.native('load_state', D, 'crash')
+  p.native('load_state', D, 'types')
+  p.native('ckpt.rt', D, 'types')
   p.native('_get_checkpoint_paths', D, 'paths')
   p.native('load_latest_checkpoint', D, 'paths')
   p.native('save_checkpoint', D, 'keep')
